@@ -7,6 +7,7 @@ package c13
 import (
 	"context"
 	"encoding/json"
+	"errors"
 	"fmt"
 	"strings"
 	"testing"
@@ -34,6 +35,8 @@ type Script struct {
 	Threshold  int    `json:"threshold"`
 	Pattern    []Tick `json:"pattern"`
 	CloseAt    int    `json:"close_at"` // explicit Close after this many ticks (0: never)
+	// CloseFails: the transport's own Close reports an error after closing (the session is closed all the same)
+	CloseFails bool `json:"close_fails,omitempty"`
 }
 
 func genScript(rt *rapid.T) Script {
@@ -57,6 +60,7 @@ func genScript(rt *rapid.T) Script {
 	if rapid.IntRange(0, 3).Draw(rt, "explicit_close") == 0 {
 		s.CloseAt = rapid.IntRange(1, n).Draw(rt, "close_at")
 	}
+	s.CloseFails = rapid.IntRange(0, 3).Draw(rt, "close_fails") == 0
 	return s
 }
 
@@ -93,6 +97,10 @@ func pings(sc *memio.ScriptConn) (reqs []*jsonrpc.Request, times []time.Time) {
 func runInBubble(s Script) (res vt.Result) {
 	I := time.Duration(s.IntervalNS)
 	sc := memio.NewScriptConn()
+	if s.CloseFails {
+		sc.CloseErr = errors.New("scripted: the transport reports a problem with its own shutdown")
+		res.Class("transport_close_reports_an_error")
+	}
 	sc.Rejected = fmt.Errorf("%w: scripted rejection", jsonrpc2.ErrRejected)
 	var wait func() error
 	var closeS func() error
